@@ -74,6 +74,109 @@ def factory(k):
     return ChangeApplySpec(k)
 
 
+def last_per_file_violation(it, fs, got, tag0=100):
+    """z3 condition: some file's last queued content is not the content of the last entry / write for that file"""
+    v = z3.BitVec('v', 32)
+    bad_terms = []
+    k = len(fs)
+    for i in range(k):
+        last_i = z3.And([fs[i] == v] + [fs[i2] != v for i2 in range(i + 1, k)])
+        okj = []
+        for j, (g, c) in enumerate(got):
+            okj.append(z3.And([g == v, c == tag0 + i] + [got[j2][0] != v for j2 in range(j + 1, len(got))]))
+        bad_terms.append(z3.And(last_i, z3.Not(z3.Or(okj)) if okj else z3.BoolVal(True)))
+    return v, (z3.Or(bad_terms) if bad_terms else z3.BoolVal(False))
+
+
+class TakeChangeSpec:
+    """glas Vfs::take_change (real MIR, full mode): the change set handed to the analysis must still carry, for every file, its LAST
+    queued content as the last entry for that file (k queued entries over 2 symbolic file ids)."""
+
+    def __init__(self, k):
+        self.k = k
+
+    def make_interp(self):
+        from . import scopes
+        it = WG.interp('glas')
+        scopes.install(it)
+        self.fs = [z3.BitVec('f%d' % i, 32) for i in range(self.k)]
+        for f in self.fs:
+            it.solver.add(z3.ULE(f, 1))
+
+        def dedup_by_key(it_, c, a):
+            v = models.deref(a[0]); xs = v.items
+            out = []
+            last_key = None
+            for i, x in enumerate(list(xs)):
+                key = it_.call_closure(a[1], [RefV(xs, i)])
+                if out and models._key_eq(it_, last_key, key):
+                    continue
+                out.append(x); last_key = key
+            xs[:] = out
+            return UNIT
+        it.models['Vec::dedup_by_key'] = dedup_by_key
+        it.models['mem::take'] = lambda it_, c, a: self._take(a[0])
+        return it
+
+    def _take(self, ref):
+        old = ref.get()
+        ref.set(self.empty_change())
+        return old
+
+    def change_fields(self):
+        import os
+        src = open(os.path.join(os.environ.get('VERIF_REPO', '/repo'), 'crates/ide/src/base.rs'), encoding='utf-8').read()
+        m = re.search(r'pub struct Change\s*\{(.*?)\n\}', src, flags=re.S)
+        return re.findall(r'^\s*(?:pub(?:\([^)]*\))?\s+)?(\w+)\s*:\s*([^\n]+?),?\s*$', re.sub(r'//[^\n]*', '', m.group(1)), flags=re.M)
+
+    def empty_change(self, entries=None):
+        vals = []
+        for f, ty in self.change_fields():
+            if f == 'file_changes':
+                vals.append(VecV(entries or []))
+            elif ty.startswith('Option<'):
+                vals.append(none())
+            elif ty.startswith('bool'):
+                vals.append(BoolV(False))
+            else:
+                vals.append(Opaque(f))
+        return Agg('struct', 'Change', None, vals)
+
+    def run_path(self, it):
+        fid = lambda f: Agg('struct', 'FileId', None, [IntV(f, 32, 0)])
+        entries = [tup(fid(f), IntV(100 + i, 32, 0)) for i, f in enumerate(self.fs)]
+        vfs = Agg('struct', 'Vfs', None, [Opaque('files'), Opaque('local_file_set'), self.empty_change(entries)])
+        body = next(b for n, b in WG.crates['glas'].items() if re.match(r'^vfs::<impl at [^>]*>::take_change$', n))
+        r = it.run_body(body, [RefV([vfs], 0)])
+        ch = models.deref(r)
+        idx = [f for f, _ in self.change_fields()].index('file_changes')
+        out = models.deref(ch.fields[idx]).items
+        got = [(models.deref(e).fields[0].fields[0].z(), models.deref(e).fields[1].z()) for e in out]
+        v, cond = last_per_file_violation(it, self.fs, got)
+        rec = {'cls': '%d-entries' % len(got), 'ok': True, 'sample': {'queued': self.k, 'handed_over': len(got)}}
+        rr, m = it.check(cond)
+        if rr == z3.sat:
+            ev = lambda t: m.eval(t, model_completion=True).as_long()
+            files = [ev(f) for f in self.fs]
+            rec = {'cls': 'violation', 'ok': False, 'cex': {'k': self.k, 'files': files},
+                   'why': ['C13: Vfs::take_change hands the analysis a change set in which file %d does not end with its last queued content: queued (file, content#) %s, handed over %s'
+                           % (ev(v), [(f, i) for i, f in enumerate(files)], [(ev(g), ev(c) - 100) for g, c in got])]}
+        left = models.deref(vfs.fields[2])
+        if models.deref(left.fields[idx]).items:
+            rec = {'cls': 'violation', 'ok': False, 'cex': {'k': self.k}, 'why': ['C13: Vfs::take_change leaves queued entries behind (they are applied again with the next change)']}
+        return rec
+
+    def on_panic(self, it, e):
+        return {'cls': 'panic:' + e.kind, 'ok': False, 'why': ['C13: Vfs::take_change panics: %s' % e], 'cex': {'k': self.k}}
+
+
+def take_factory(k):
+    return TakeChangeSpec(k)
+
+
+WG = None
+
+
 DOC = 'fn a() {}\n'
 
 
@@ -91,11 +194,16 @@ def native_batch(binary, k):
 
 
 def part(chk, tier, jobs):
-    global W
+    global W, WG
     from mirsym import explore, lsp_replay
     W = World(['ide'], 'dev', log=chk.log)
+    WG = World(['glas'], 'dev', log=chk.log)
     try:
         found = []
+        for k in ((1, 2, 3) if tier == 'quick' else (1, 2, 3, 4)):
+            res, complete = explore.explore(take_factory, (k,), jobs=1)
+            chk.add_run('Vfs::take_change with %d queued contents over 2 symbolic file ids' % k, res, complete, {'queued_entries': k, 'file_ids': 2}, nontrivial_classes=lambda c: c.endswith('-entries'))
+            found += [(max(k, 2), v) for v in res.violations]
         for k in ((1, 2, 3) if tier == 'quick' else (1, 2, 3, 4)):
             res, complete = explore.explore(factory, (k,), jobs=1)
             chk.add_run('Change::apply with %d queued contents over 2 symbolic file ids (under-constrained database)' % k, res, complete, {'queued_entries': k, 'file_ids': 2},
@@ -124,4 +232,4 @@ def part(chk, tier, jobs):
                     chk.inconclusive.append('translator validation FAILED: Change::apply kernel finds no problem, but the real server analyses %r after %d insertions (editor: %r)' % (out.get('text'), k, expect))
             chk.log('Change::apply: %d multi-change notifications replayed against the real server agree with the kernel' % len(outs))
     finally:
-        W.cleanup()
+        W.cleanup(); WG.cleanup()
